@@ -63,6 +63,7 @@ impl Debt {
     ///   through `ArcSwap<T>` and someone else with `ArcSwapOption<T>` will work.
     #[inline]
     pub(crate) fn pay<T: RefCnt>(&self, ptr: *const T::Base) -> bool {
+        verif_step!(DEBT_PAY);
         self.0
             // If we don't change anything because there's something else, Relaxed is fine.
             //
@@ -84,11 +85,13 @@ impl Debt {
         R: Fn() -> T,
     {
         LocalNode::with(|local| {
+            verif_step!(PAYALL_BEGIN);
             let val = unsafe { T::from_ptr(ptr) };
             // Pre-pay one ref count that can be safely put into a debt slot to pay it.
             T::inc(&val);
 
             Node::traverse::<(), _>(|node| {
+                verif_step!(PAYALL_NODE);
                 // Make the cooldown trick know we are poking into this node.
                 let _reservation = node.reserve_writer();
 
@@ -109,6 +112,7 @@ impl Debt {
 
                 None
             });
+            verif_step!(PAYALL_END);
             // Implicit dec by dropping val in here, pair for the above
         })
     }
